@@ -129,6 +129,13 @@ def run(ctx):
             ctx.notes["search_evaluations"] = ctx.notes.get("search_evaluations", 0) + int(f[1])
         elif f[0] == "NOTE":
             ctx.notes.setdefault("search_notes", []).append(f[1][:300])
+    ctx.notes["hygiene_oracles"] = (
+        "harness/c12/hygiene.go (search): a second Encode of the same File gives the same bytes, before and after UpdateSidx "
+        "(encode-time mutation); after a truncated copy of the file (cut at a top-level box boundary rotating over the boxes, every "
+        "third time 12 bytes into the next box) has been decoded, the PREVIOUS layout of the run and then the same bytes are decoded "
+        "again: same segment partition and same re-encoding as the first time (a failed / cut-short decoding must not influence "
+        "the next one); on every third layout UpdateSidx is called twice before encoding and the index must still tile the media. "
+        "Aliasing / capacity classes: DecodeFile reads through an io.Reader and owns what it builds (not applicable).")
     # ---- the add-sidx example binary on synthesized files
     fails += run_add_sidx(ctx, exe)
     # failing_input returns False for a signature listed as known: those must not hide a model/implementation mismatch
